@@ -296,3 +296,5 @@ P("C18", BASE, "    def _childviews(self) -> List[str]:", "    def __getstate__(
 B("C19", BASE, "                self.base.nodes.loc[rows[~in_use], col] = float(\"nan\")", "                self.base.nodes.loc[rows, col] = float(\"nan\")", "R-C19-undo")
 B("C19", BASE, "                self.base.nodes.drop(columns=unshared_cols + [name], inplace=True)", "                self.base.nodes.drop(columns=channel_cols + [name], inplace=True)", "R-C19-undo")
 B("C19", BASE, "                if channel.current_name not in [c.current_name for c in others]:\n                    self.base.membrane_current_names.remove(channel.current_name)", "                self.base.membrane_current_names.remove(channel.current_name)", "R-C19-undo")
+# F12 (repaired): re-introduce the stale read
+B("C16", CU, "            all_types.append(int(content[min(1, len(content) - 1)][1]))", "            all_types.append(int(current_type))", "R-C16-stale")
